@@ -242,6 +242,26 @@ func main() {
 	for i, r := range others {
 		w.Encode(process(fmt.Sprintf("%s-%d", r.Class, i), r))
 	}
+	// the same records the way kernels older than 6.2 print them: without the class= field
+	for i, r := range others {
+		if _, has := r.Fields["class"]; !has || r.Class == "mqueue" || r.Class == "io_uring" || r.Class == "userns" {
+			continue // (mediation classes newer than the class= field itself never came without it)
+		}
+		f := map[string]string{}
+		for k, v := range r.Fields {
+			if k != "class" {
+				f[k] = v
+			}
+		}
+		line := strings.Replace(r.Line, ` class="`+r.Fields["class"]+`"`, "", 1)
+		w.Encode(process(fmt.Sprintf("noclass-%s-%d", r.Class, i), rec{r.Class, f, line}))
+	}
+	for i, op := range []string{"chown", "symlink", "open", "mknod"} {
+		r := fileRec("DENIED", op, "/srv/data/nc", "w", "1000", "1000")
+		delete(r.Fields, "class")
+		r.Line = strings.Replace(r.Line, ` class="file"`, "", 1)
+		w.Encode(process(fmt.Sprintf("noclass-file-%d", i), r))
+	}
 	// pairs of other classes differing in one class-specific field
 	opairs := [][2]int{{0, 1}, {3, 4}, {8, 9}, {8, 10}, {11, 12}, {13, 14}, {16, 17}, {21, 22}}
 	for i, p := range opairs {
